@@ -9,7 +9,11 @@ def is_any_dimension(factor: Expr) -> bool:
     absorbing nature.
     """
 
-    return factor in (S.Zero, S.Infinity, S.NegativeInfinity, S.NaN)
+    if factor in (S.Zero, S.Infinity, S.NegativeInfinity, S.NaN):
+        return True
+
+    # `Float(0.0)` no longer compares equal to `S.Zero` in recent versions of SymPy
+    return getattr(factor, "is_zero", None) is True
 
 
 def is_number(value: Any) -> bool:
